@@ -3,7 +3,7 @@
    and the model really computes on them: an off-grid linear selection between two stored samples,
    an on-grid selection, and an off-grid insert followed by a select that returns the inserted value. *)
 From Coq Require Import List ZArith Bool Arith Lia Reals Lra.
-From Inferno Require Import Base.Num Base.NumR Gen.Infra Gen.Interpolation Gen.Extrapolation C01.Ring C01.RingProofs C02.Select C02.RoundTrip C02.SelectProofs.
+From Inferno Require Import Base.Num Base.NumR Gen.Infra Gen.Interpolation Gen.Extrapolation C01.Ring C01.RingProofs C02.Select C02.RoundTrip C02.SelectProofs C02.SelectExec.
 Import ListNotations.
 Open Scope R_scope.
 
